@@ -25,6 +25,11 @@ THEOREMS = [
     "TornadoModel.C04.chunk_oversize_rejected",
     "TornadoModel.C04.chunk_at_limit_ok",
     "TornadoModel.C04.gz_oversize_rejected",
+    "TornadoModel.C04.raw_body_limit_exact",
+    "TornadoModel.C04.raw_body_limit_absent",
+    "TornadoModel.C04.raw_delivered_le_configured",
+    "TornadoModel.C04.raw_zero_delivers_nothing",
+    "TornadoModel.C04.raw_zero_cl_rejected",
     "TornadoModel.C04.limits_monotone",
     "TornadoModel.C04.limits_monotone_state",
 ]
@@ -35,13 +40,18 @@ TRUSTED = base.TRUSTED + [
 ASSUMPTIONS = base.ASSUMPTIONS[:4] + [
     "gzip bodies are well-formed or truncated gzip streams (corrupt deflate data raises zlib.error inside the delegate; "
     "not part of this property)",
-    "max_buffer_size stays at its 100 MB default; the read-buffer cap itself is exercised by C11",
+    "the stream's max_buffer_size is its default (None/0 -> 100 MB) or at least the length of the whole stream, so the "
+    "read-buffer cap itself is never reached (that cap is exercised by C11); it only matters as the body limit when "
+    "max_body_size is None",
     "runs against the repo with the fix commit that forwards set_max_body_size() to the gzip delegate",
 ]
-RULE = ("limits 1..4096 for the body, 40..600 for the header block, sizes limit-1/limit/limit+1/10*limit, framings "
-        "Content-Length / chunked (random chunk splits) / gzip (levels, multi-member, truncated, bombs), per-request "
-        "overrides above and below the default, x segmentations; non-trivial = a body or header block within 2 bytes "
-        "of its limit or beyond it; distinct by canonical JSON")
+RULE = ("server options as the application passes them: max_body_size 0 / 1..4096 / None (-> max_buffer_size None|0|2048|"
+        "4096 -> 100 MB), max_header_size 0 / None (-> 65536) / 40..600; sizes limit-1/limit/limit+1/10*limit (declared-only "
+        "for the 100 MB default), framings Content-Length / chunked (random chunk splits) / gzip (levels, multi-member, "
+        "truncated, bombs), per-request overrides 0 / above / below the default, x segmentations; plus a fixed grid "
+        "{max_body_size 0,1,None} x {override none,0,1,5} x {CL, chunked one chunk, chunked 1-byte chunks} x {0,1,2,6 bytes} "
+        "(whole and byte-wise) and the exact 65536 / 100 MB / max_buffer_size boundaries; non-trivial = a body or header "
+        "block within 2 bytes of its limit or beyond it; distinct by canonical JSON")
 EXHAUSTIVE = {"quick": False, "thorough": False}
 CLAUSES = {
     "header block larger than max_header_size is refused and the connection closed": "header_oversize_closed, header_unterminated_closed, header_at_limit_ok",
@@ -49,6 +59,7 @@ CLAUSES = {
     "chunked body larger than the limit refused": "chunk_oversize_rejected, chunk_at_limit_ok",
     "gzip body decompressing beyond the limit refused": "gz_oversize_rejected",
     "application is handed at most max_body_size body bytes": "delivered_le_limit, delivered_le_limit_eof, withinLimits_run (all streams, segmentations, overrides), gz_delivered_le_limit (all decompressor behaviours)",
+    "limit values (configurations): the configured max_body_size is the limit for every value incl. 0, None falls back to max_buffer_size": "raw_body_limit_exact, raw_body_limit_absent, raw_delivered_le_configured, raw_zero_delivers_nothing, raw_zero_cl_rejected (Raw.cfg models `is not None` / `or 65536` / `or 104857600`)",
     "requests within the limits are unaffected": "limits_monotone, limits_monotone_state (raising the limits does not change a run that never closed); boundary exactness by *_at_limit_ok; checked on every case against Spec.readAll",
 }
 PARALLEL = True
@@ -56,6 +67,31 @@ CASE_TIMEOUT = 120
 
 
 # ------------------------------------------------------------------------------------------------ implementation
+
+class _stream_buffer:
+    """`cfg["buf"]` = the `max_buffer_size` of the stream the connection is served on (what TCPServer passes to IOStream);
+    base.serve builds its FakeStream without arguments, so the argument is injected here"""
+
+    def __init__(self, cfg):
+        self.buf = cfg.get("buf")
+
+    def __enter__(self):
+        if self.buf is None:
+            return
+        from core import faketransport as ft
+        self.ft, self.orig = ft, ft.FakeStream.__init__
+        orig, buf = self.orig, self.buf
+
+        def init(stream, io_loop=None, **kw):
+            kw.setdefault("max_buffer_size", buf)
+            orig(stream, io_loop, **kw)
+
+        ft.FakeStream.__init__ = init
+
+    def __exit__(self, *a):
+        if self.buf is not None:
+            self.ft.FakeStream.__init__ = self.orig
+
 
 def _serve_gzip(case):
     """-> (raw log with extra ("G", chunk) ("A", out, tail_len) ("GR",) entries, closed)"""
@@ -92,8 +128,10 @@ def _serve_gzip(case):
     h1._GzipMessageDelegate.data_received = data_received
     h1.GzipDecompressor = RecDec
     try:
-        log, closed_before, closed = base.serve(base.segments(data, case["cuts"]), case["cfg"], eof=case.get("eof", False),
-                                                decompress=True, wrap=lambda lg: holder.__setitem__("log", lg))
+        with _stream_buffer(case["cfg"]):
+            log, closed_before, closed = base.serve(base.segments(data, case["cuts"]), case["cfg"],
+                                                    eof=case.get("eof", False), decompress=True,
+                                                    wrap=lambda lg: holder.__setitem__("log", lg))
     finally:
         h1._GzipMessageDelegate.data_received = orig_dr
         h1.GzipDecompressor = OrigDec
@@ -102,8 +140,8 @@ def _serve_gzip(case):
 
 def run_impl(case):
     if case["kind"] == "limit":
-        r = base.run_impl({**case, "kind": "stream"})
-        return r
+        with _stream_buffer(case["cfg"]):
+            return base.run_impl({**case, "kind": "stream"})
     log, closed = _serve_gzip(case)
     calls, inner, limit_seen = [], [], None
     for e in log:
@@ -125,16 +163,25 @@ def run_impl(case):
 # ------------------------------------------------------------------------------------------------ model / spec
 
 def _eff(cfg, i):
+    """the limit the configuration *asks for* (generators, messages; the verdicts use Lean's `Raw.cfg` / `effLimit`):
+    the override, else max_body_size, else (None) the stream's max_buffer_size, itself 100 MB by default"""
     ov = cfg["ov"][i] if i < len(cfg["ov"]) else None
-    return cfg["mb"] if ov is None else ov
+    if ov is not None:
+        return ov
+    return cfg["mb"] if cfg["mb"] is not None else (cfg.get("buf") or 104857600)
+
+
+def _cfg_wire(cfg):
+    """the raw options [max_header_size|~, max_body_size|~, max_buffer_size|~, overrides, no_keep_alive] (Lean `Raw`)"""
+    return [cfg["mh"], cfg["mb"], cfg.get("buf"), list(cfg["ov"]), atom(bool(cfg["nk"]))]
 
 
 def model_requests(case, impl):
     if case["kind"] == "limit":
         data = bytes.fromhex(case["data"])
-        return [line(ID, "run", base._cfg_wire(case["cfg"]), base.segments(data, case["cuts"]), atom(bool(case.get("eof", True))))]
+        return [line(ID, "run", _cfg_wire(case["cfg"]), base.segments(data, case["cuts"]), atom(bool(case.get("eof", True))))]
     calls = [[bytes.fromhex(c), [[bytes.fromhex(o), t] for o, t in s]] for c, s in impl["calls"]]
-    return [line(ID, "gzip", _eff(case["cfg"], 0), calls)]
+    return [line(ID, "gzip", [_cfg_wire(case["cfg"]), 0], calls)]
 
 
 def model_result(case, replies):
@@ -165,10 +212,10 @@ def spec_requests(case, impl):
     if case["kind"] == "limit":
         lens = _data_lens(impl["ev"])
         nreq = sum(1 for e in impl["ev"] if isinstance(e, list) and e[0] == "req")
-        return [line(ID, "spec", base._cfg_wire(case["cfg"]), bytes.fromhex(case["data"])),
-                line(ID, "within", base._cfg_wire(case["cfg"]), max(nreq, len(lens) and max(lens) + 1),
+        return [line(ID, "spec", _cfg_wire(case["cfg"]), bytes.fromhex(case["data"])),
+                line(ID, "within", _cfg_wire(case["cfg"]), max(nreq, len(lens) and max(lens) + 1),
                      [[i, n] for i, n in sorted(lens.items())])]
-    return []
+    return [line(ID, "eff", _cfg_wire(case["cfg"]), 0)]
 
 
 def spec_violation(case, impl, replies):
@@ -181,7 +228,9 @@ def spec_violation(case, impl, replies):
             return "application handed more body bytes than the limit: request %d got %d, limit %d" % over[0]
         why = base.spec_violation({**case, "kind": "stream"}, impl, replies[:1])
         return why
-    limit = _eff(case["cfg"], 0)
+    st, vals = parse_reply(replies[0])
+    assert st == "ok", replies[0]
+    limit = vals[1]
     got = sum(len(x) // 2 for x in impl["inner"])
     if got > limit:
         return "application handed %d decompressed bytes, limit %d" % (got, limit)
@@ -216,8 +265,15 @@ def stats(case, impl):
     if case["kind"] == "gzip":
         out.append("gz:calls:%d" % min(8, sum(len(s) for _, s in impl["calls"])))
         out.append("gz:rejected:%s" % impl["gz_rejected"])
-    if case["cfg"]["ov"]:
+    cfg = case["cfg"]
+    if cfg["ov"]:
         out.append("override")
+        if 0 in cfg["ov"]:
+            out.append("override:0")
+    out.append("max_body_size:" + ("none" if cfg["mb"] is None else "0" if cfg["mb"] == 0 else "positive"))
+    out.append("max_header_size:" + ("none" if cfg["mh"] is None else "0" if cfg["mh"] == 0 else "positive"))
+    if "buf" in cfg:
+        out.append("max_buffer_size:" + ("none" if cfg["buf"] is None else "0" if cfg["buf"] == 0 else "small"))
     return out
 
 
@@ -248,7 +304,12 @@ def shrink(case):
 
 # ------------------------------------------------------------------------------------------------ generators
 
+BIG = 50000          # limits above this are probed by *declared* sizes only (nobody sends 100 MB)
+
+
 def _sizes(rng, limit):
+    if limit == 0:   # "no bodies accepted": empty passes, everything else is beyond the limit
+        return rng.choice([0, 0, 1, 1, 1, 2, 17, 1000])
     return max(0, limit + rng.choice([-1, 0, 0, 1, 1, 2, -2, 9 * limit, -limit // 2]))
 
 
@@ -271,35 +332,112 @@ def _frame(rng, body, extra="", chunked=None):
     return (head + "Content-Length: %d\r\n\r\n" % len(body)).encode() + body
 
 
+def _declared(declared, framing, sent=b"xyz"):
+    """the start of a request that *declares* `declared` body bytes (Content-Length / first chunk / second chunk after
+    a 3-byte one, so that the running total is what counts) and sends only a few of them; must end the stream"""
+    head = b"POST /big HTTP/1.1\r\nHost: x\r\n"
+    if framing == "cl":
+        return head + b"Content-Length: %d\r\n\r\n" % declared + sent[:declared]
+    head += b"Transfer-Encoding: chunked\r\n\r\n"
+    if framing == "chunk-first" or declared <= 3:
+        return head + b"%x\r\n" % declared + (sent[:declared] if declared else b"\r\n")
+    return head + b"3\r\nabc\r\n" + b"%X\r\n" % (declared - 3) + sent
+
+
 def _limit_case(rng):
-    cfg = {"mh": 65536, "mb": rng.choice([1, 2, 16, 17, 64, 100, 255, 256, 1000, 4096]), "ov": [], "nk": False}
+    cfg = {"mh": rng.choice([65536] * 8 + [None, 0]), "ov": [], "nk": False,
+           "mb": rng.choice([0, 0, 0, 1, 1, 2, 16, 17, 64, 100, 255, 256, 1000, 4096, None, None])}
+    if cfg["mb"] is None or rng.random() < 0.15:
+        cfg["buf"] = rng.choice([None, None, 0, 2048, 4096])
     if rng.random() < 0.35:
-        cfg["ov"] = [rng.choice([None, 0, 1, 8, 50, 300, 2000, 5000]) for _ in range(rng.choice([1, 2, 3]))]
+        cfg["ov"] = [rng.choice([None, 0, 0, 1, 8, 50, 300, 2000, 5000]) for _ in range(rng.choice([1, 2, 3]))]
     parts, gen = [], "body"
     r = rng.random()
-    if r < 0.25:
+    if r < 0.25 and not cfg.get("buf"):
         cfg["mh"] = rng.choice([40, 64, 100, 200, 600])
         gen = "header"
-    for i in range(rng.choice([1, 1, 2, 3])):
+    nparts = rng.choice([1, 1, 2, 3])
+    for i in range(nparts):
         if gen == "header" and rng.random() < 0.6:
             parts.append(base._pad_to_header_limit(rng, cfg))
             continue
-        n = _sizes(rng, _eff(cfg, i))
+        limit = _eff(cfg, i)
+        if limit > BIG:
+            if i == nparts - 1 and rng.random() < 0.7:
+                parts.append(_declared(limit + rng.choice([-1, 0, 0, 1, 1, 2, 9 * limit]),
+                                       rng.choice(["cl", "chunk-first", "chunk-total"]), b"xyz"[:rng.choice([0, 1, 3])]))
+                gen = "declared"
+            else:
+                parts.append(_frame(rng, rng.randbytes(rng.choice([0, 1, 2, 17, 300]))))
+            continue
+        n = _sizes(rng, limit)
         body = rng.randbytes(min(n, 50000))
         parts.append(_frame(rng, body))
     data = b"".join(parts)
     if rng.random() < 0.08:
         data = base._mutate(rng, data)
         gen = "mutated"
+    if cfg.get("buf") and len(data) + 8 > cfg["buf"]:
+        cfg["buf"] = None        # stay inside the domain: the read-buffer cap itself is C11's
     return cfg, data, gen
 
 
+def _grid_cases():
+    """fixed enumeration around the smallest limits: what `max_body_size` 0 / 1 / None, with and without a per-request
+    override (0 / 1 / 5) for the first request, do to bodies of 0 / 1 / 2 / 6 bytes in every framing; a second request
+    with a 1-byte body follows (no override: the server-level limit applies again)"""
+    after = b"POST /after HTTP/1.1\r\nHost: x\r\nContent-Length: 1\r\n\r\nz"
+    for mb in (0, 1, None):
+        for ov0 in ("-", 0, 1, 5):
+            for fr in ("cl", "chunk-one", "chunk-bytes"):
+                for n in (0, 1, 2, 6):
+                    cfg = {"mh": 65536, "mb": mb, "ov": [] if ov0 == "-" else [ov0], "nk": False}
+                    body = b"abcdef"[:n]
+                    head = b"POST /g HTTP/1.1\r\nHost: x\r\n"
+                    if fr == "cl":
+                        req = head + b"Content-Length: %d\r\n\r\n" % n + body
+                    else:
+                        chunks = [body] if fr == "chunk-one" else [body[k:k + 1] for k in range(n)]
+                        req = head + b"Transfer-Encoding: chunked\r\n\r\n" + b"".join(
+                            b"%x\r\n" % len(c) + c + b"\r\n" for c in chunks if c) + b"0\r\n\r\n"
+                    data = req + after
+                    for seg, cuts in (("whole", []), ("bytes", list(range(1, len(data))))):
+                        yield {"kind": "limit", "cfg": cfg, "data": data.hex(), "cuts": cuts, "eof": False, "gen": "grid",
+                               "seg": seg, "near": True}
+
+
+def _edge_cases():
+    """the exact boundaries of the fall-back values: header block around 65536 when max_header_size is None / 0; declared
+    body sizes around max_buffer_size (given, or its 100 MB default for None / 0) when max_body_size is None"""
+    for mh in (None, 0):
+        for want in (65535, 65536, 65537, 65600):
+            b = "GET / HTTP/1.1\r\nHost: x\r\nX-Pad: "
+            data = (b + "p" * (want - len(b) - 4) + "\r\n\r\n").encode() + b"GET /n HTTP/1.1\r\nHost: x\r\n\r\n"
+            cfg = {"mh": mh, "mb": 16, "ov": [], "nk": False}
+            # no segment longer than read_chunk_size (65536): the fake transport announces readability once per segment,
+            # and the stream stops reading at max_bytes when the terminator is not in sight yet (a level-triggered socket
+            # would be announced again)
+            for seg, cuts in (("around-64k", [32768, 65535, 65536, 65537]), ("blocks", list(range(4096, len(data), 4096)))):
+                yield {"kind": "limit", "cfg": cfg, "data": data.hex(), "cuts": cuts, "eof": False, "gen": "edge-header",
+                       "seg": seg, "near": True}
+    first = b"POST /s HTTP/1.1\r\nHost: x\r\nContent-Length: 2\r\n\r\nhi"
+    for buf in (None, 0, 2048, 4096):
+        cfg = {"mh": 65536, "mb": None, "buf": buf, "ov": [], "nk": False}
+        limit = _eff(cfg, 0)
+        for fr in ("cl", "chunk-first", "chunk-total"):
+            for d in (-1, 0, 1, 2):
+                data = first + _declared(limit + d, fr)
+                for seg, cuts in (("whole", []), ("one-cut", [len(data) - 4])):
+                    yield {"kind": "limit", "cfg": cfg, "data": data.hex(), "cuts": cuts, "eof": seg == "whole",
+                           "gen": "edge-declared", "seg": seg, "near": True}
+
+
 def _gzip_case(rng):
-    limit = rng.choice([1, 16, 100, 255, 256, 1000, 4096] * 3 + [65536, 70000])
+    limit = rng.choice([0, 0, 1, 16, 100, 255, 256, 1000, 4096] * 3 + [65536, 70000])
     cfg = {"mh": 65536, "mb": limit, "ov": [], "nk": False}
     if rng.random() < 0.3:
-        eff = rng.choice([1, 16, 100, 300, 2000, 5000])
-        cfg["mb"] = rng.choice([10, 100, 1000, 100000])
+        eff = rng.choice([0, 1, 16, 100, 300, 2000, 5000])
+        cfg["mb"] = rng.choice([0, 10, 100, 1000, 100000, None])
         cfg["ov"] = [eff]
         limit = eff
     n = _sizes(rng, limit)
@@ -336,8 +474,10 @@ def _gzip_case(rng):
 
 
 def gen_cases(rng, tier):
-    n_lim = {"quick": 1200, "thorough": 12000, "search": 800}[tier]
+    n_lim = {"quick": 1100, "thorough": 12000, "search": 800}[tier]
     n_gz = {"quick": 700, "thorough": 6000, "search": 500}[tier]
+    yield from _grid_cases()
+    yield from _edge_cases()
     for _ in range(n_lim):
         cfg, data, gen = _limit_case(rng)
         n = len(data)
